@@ -11,33 +11,33 @@ NOTE = ("bounded: only the listed alphabets (names, values, options) and histori
         "fix-point; trusted: CPython, the explorer, strict observation (provmc/observe.py), the reference model")
 
 CLAIMED = {
-    "C01": ("Every document reachable by <= depth calls of the document alphabet (about 65 letters, DESIGN 12.2: namespace declarations at document "
-            "and bundle level, bundles created and attached, every name spelling, elements, relations, attributes, in-place editors) and every case of the cartesian "
+    "C01": ("Every document reachable by <= depth calls of the document alphabet (about 67 letters, DESIGN 12.2: namespace declarations at document "
+            "and bundle level, bundles created and attached, every name spelling, elements, relations, attributes, in-place editors incl. asserted types in namespaces the container has not seen) and every case of the cartesian "
             "shape sweep (15 namespace environments x 55 record shapes x id modes x all value kinds and attribute-name classes x json.dump "
-            "options) is written as PROV-JSON, read back and compared strictly (URI level, kind-aware, multiset). "
+            "options, plus quantity cases: the 3rd / 11th / 12th / 14th entity, relation, attribute name, value, bundle, namespace under one prefix) is written as PROV-JSON, read back and compared strictly (URI level, kind-aware, multiset); every document that round-trips is then edited in place (set_time, add_attributes in a new namespace, a new record) and written again through the same serializer object: the second text must denote the edited document and equal a fresh export. "
             "Exhaustive within the stated alphabet and bound, nothing sampled.  One recorded finding (F44, two bundles printing alike) is reported as KNOWN-FINDING.", TECH + "; exhaustive shape sweeps", NOTE),
     "C03": ("All interleavings of add_namespace / set_default_namespace / valid_qualified_name (QualifiedName "
-            "objects, prefix:local, bare and full-URI strings, clashing / alias / generated-looking prefixes, nested "
+            "objects incl. unprefixed ones with a colon in the local part, Namespace objects that have already minted names, prefix:local, bare and full-URI strings, clashing / alias / generated-looking prefixes, nested "
             "URIs) are explored on the real NamespaceManager: one scope to a fix-point of the canonical state (verdict "
             "for histories of every length over that alphabet), two and three scopes to a depth bound; (a) and (b) on "
             "every transition, (c) on every state, plus lock-step agreement with a reference resolver.",
             TECH + " (run to a fix-point for one scope)", NOTE),
     "C18": ("Every state reachable by <= depth record-adding calls (factories in every spelling, new_record, "
-            "add_record, update, on a document and a bundle) and every container derived from it by constructor / "
+            "add_record, update, on a document and a bundle; a default namespace nested under a prefixed one) and every container derived from it by constructor / "
             "unified / flattened / update / add_bundle / JSON / XML reload is probed (string spellings before QualifiedName objects) with every spelling of every "
             "present identifier and absent ones (questions that cannot register a namespace first), also after the transformations and exporters have read the container; look-ups of unresolvable names are part of the histories; get_record, get_records(cls) and records are compared with a scan (and typed listings must be snapshots: consumed after a later addition they still show the earlier state) "
             "of the record list.", TECH, NOTE),
     "C08": ("Every document reachable by <= depth record/attribute additions that make identifiers collide (same "
             "identifier through a prefix, an alias prefix and the full URI; entity/agent/activity; generation/usage; "
-            "conflicting times and activities; identified memberships with and without a member; document and bundle; 34 letters) is unified and compared with a reference "
+            "conflicting times and activities; identified memberships with and without a member; document and bundle; set_time and a reading operation as letters; 37 letters) is unified and compared with a reference "
             "unification computed on strict observations: result content and order, refusal iff a single-valued "
-            "conflict exists, idempotence, bundle-level unified(), source unchanged.", TECH, NOTE),
+            "conflict exists, idempotence, bundle-level unified(), source unchanged; when a record editor leaves the library's reading of a record different from the calls made, unified() is judged against the reference model.", TECH, NOTE),
     "C09": ("All states of a 25-letter document alphabet (incl. falsy values and PROV argument names as additional attributes) to depth 3 are collected; for every ordered pair (d, other) "
             "every sequence of up to 2 operations (thorough: 3 on the smallest pairs, 1-2 on deep x shallow and deep x deep pairs) from update / add_bundle (document, no identifier, "
-            "duplicate identifier as object and as string, stand-alone bundle, bundle under another identifier, unresolvable identifier) / flattened is executed on fresh replays and compared step by "
+            "duplicate identifier as object and as string, stand-alone bundle, bundle under another identifier, unresolvable identifier, a bundle made by another document under a string identifier) / flattened is executed on fresh replays and compared step by "
             "step with multiset arithmetic on strict observations; other must stay unchanged, refusals must leave d "
             "unchanged, and the result must survive a PROV-JSON round trip.", TECH, NOTE),
-    "C12": ("All states of a 14-letter alphabet (incl. a renamed prefix) to depth 3 (thorough 4) x every deriving operation (record copy, add_record, constructor, "
+    "C12": ("All states of a 16-letter alphabet (incl. a renamed prefix and a bundle that cannot be unified) to depth 3 (thorough 4) x every deriving operation (record copy, add_record, constructor, "
             "into another and into the own container, update, add_bundle(document), unified, flattened, JSON/XML reload) x every follow-up mutation (attribute "
             "on each record, new record, add_namespace incl. clashing, set_default_namespace, bundle(), the same "
             "inside each bundle) x side mutated (thorough: x a second mutation on the other side); the untouched "
@@ -52,14 +52,14 @@ CLAIMED = {
     "C13": ("Every state of the document alphabet to depth 3 (thorough 4) x every ordered sequence of exporter calls "
             "(PROV-JSON x options, PROV-XML x force_types, RDF, PROV-N, DOT x options, graph, ==, hash, unified, "
             "flattened; longer sequences on shallower states): after every call the ordered strict content and the "
-            "namespace observation must be unchanged; the same export repeated, and on a twin document built by the "
+            "namespace observation must be unchanged; one serializer object used for two exports must give the text of a fresh export both times; the same export repeated, and on a twin document built by the "
             "same calls, must give identical output (RDF under deterministic blank-node labels, else isomorphic); PROV-JSON text must be what the json module prints for the same data under the options of that very call; exports interleaved with construction must not influence the final exports.",
             TECH, NOTE),
     "C05": ("Full product of 18 record kinds x 5 creation paths (typed factory, element convenience method, new_record x 3) x every accepted representation of each formal "
             "argument (record object, QualifiedName, prefix:local, full URI, Identifier; datetime, ISO string, typed literal) x "
-            "optional-argument masks, each followed by every sequence of <= 1 (thorough 2) follow-up additions "
+            "optional-argument masks (new_record also without the second formal argument), each followed by every sequence of <= 1 (thorough 2) follow-up additions "
             "(same value, same value in another representation, different value, unparsable value; add_attributes "
-            "dict / pair list / set_time), executed in lock-step with a reference record: normal-form invariant after "
+            "dict / pair list / one-shot iterator / set_time), executed in lock-step with a reference record: normal-form invariant after "
             "every call, refusal iff a different value is offered for a filled formal attribute, refusals change "
             "nothing; plus 1320 literal-vs-native cases over every attribute class and entry path.", TECH, NOTE),
     "C02": ("Same enumerations as C01 (history exploration of the document alphabet; cartesian shape sweep over 15 "
@@ -82,21 +82,21 @@ CLAIMED = {
             "declarations first, bundles last, ECHAR escapes, typed / language literals) and the parsed document must "
             "equal the strict observation of the original.", TECH + "; independent PROV-N parser as oracle",
             NOTE + "; the PROV-N parser (written from the grammar as recalled in DESIGN appendix A.1) is trusted"),
-    "C14": ("Every bundle-free document reachable by <= depth calls of a 28-letter alphabet (declared and undeclared "
+    "C14": ("Every bundle-free document reachable by <= depth calls of a 31-letter alphabet (declared and undeclared "
             "endpoints, entity+agent under one identifier, eight relation kinds, self-loops, parallel duplicates, "
-            "identified/anonymous, missing endpoints, attributes) is converted with prov_to_graph and compared with a "
+            "identified/anonymous, missing endpoints, attributes incl. names that are graph data keys: relation, key, weight) is converted with prov_to_graph and compared with a "
             "reference graph computed from the reference unification (after two decoy documents using the same names in other roles were converted): node multiset, inferred nodes and their kinds, edge multiset "
             "with endpoints by URI and the carried relation, MultiDiGraph-ness; graph_to_prov must return the unified "
             "document restricted to elements and two-ended relations.", TECH, NOTE),
     "C15": ("A product of 35 graph structures (n-ary, annotated, one-ended, parallel, self-loop, 0-2 bundles sharing URIs, duplicates inside a bundle only, cross-scope references "
             "with the document) and 18 markup-significant texts x 7 positions (label, value, URI value, qualified-name "
-            "value, attribute name, identifier, bundle identifier) x 3 placements, plus all states of a bundle-aware "
+            "value, attribute name, identifier, bundle identifier) x 3 placements, runs of 4 kB and 8 kB of text ending in escaped characters at every offset of a window below the 4096 / 8192 marks, plus all states of a bundle-aware "
             "history alphabet to depth 2 (thorough 3), each under all 80 option sets; Graphviz (dot -Tdot_json) must "
             "accept the text and the parsed structure (clusters, element nodes per unified record and cluster, generic "
             "nodes, relation paths, n-ary legs, annotation tables, HTML-like label skeletons and texts) must equal the "
             "expectation.", TECH + "; Graphviz as independent DOT reader", NOTE + "; Graphviz 2.43 is trusted as DOT and HTML-like label parser"),
     "C16": ("Full product of 14 documents (non-ASCII identifiers and values, bundles, 20 kB string, dense non-ASCII, Unicode line separators; inside the C01/C02/"
-            "C07 spaces) x 4 formats + 3 writer-option variants x 8 destinations (returned str, StringIO, GB18030 text file, tempfile text and binary wrappers, codecs writer, binary stream, path with non-ASCII and %XX in its name, relative path from two working directories) compared "
+            "C07 spaces) x 4 formats + 3 writer-option variants x 8 destinations (returned str, StringIO, GB18030 text file, tempfile text and binary wrappers, codecs writer, binary stream, path with non-ASCII and %XX in its name, paths whose names are near the 255-byte limit in multi-byte and in ASCII characters, relative path from two working directories) compared "
             "pairwise (bytes = UTF-8 of the text; XML by canonical form), then x 9 sources (content str/bytes, text/"
             "binary stream seekable and non-seekable, GB18030 text file, tempfile text wrapper, path) x up to 4 readers (deserialize, prov.read with format in "
             "either case, prov.read without format - an exploration of the stream position its detection attempts "
@@ -104,7 +104,7 @@ CLAIMED = {
             "formats, destination kinds, source kinds and readers on the real API (environment-answer enumeration)", NOTE),
     "C17": ("Fault enumeration at the system-call boundary (LD_PRELOAD shim native/faultfs.c interposing write, rename*, "
             "sendfile, copy_file_range, open*, unlink, fsync for sandbox paths): full product of 4 formats x document "
-            "sizes (1, several, many write calls) x 15 destination names (incl. a symbolic link to a regular file) (relative, absolute, space, non-ASCII, '#', '?', '%20', '%', '&', '~', "
+            "sizes (1, several, many write calls) x 17 destination names (incl. a symbolic link to a regular file and names near the 255-byte limit in multi-byte and ASCII characters) (relative, absolute, space, non-ASCII, '#', '?', '%20', '%', '&', '~', "
             "';', ':', sub-directory; given as str, pathlib.Path and bytes) x pre-existing/absent x every schedule with <= 1 (thorough 2) deviations from the "
             "fault-free call sequence: k-th write fails or is short for every k, the move fails once, fails every time (EACCES / EPERM) or answers EXDEV and the "
             "copy fallback's steps fail, close fails, temp-file removal fails, the serialiser itself raises.  Success must create "
